@@ -75,6 +75,7 @@ class WorldGen:
         self.pool = []
         self.desc = []
         self.tometh = to_methods()
+        self._tr_slots = {}
 
     # ------------------------------------------------------------------ knobs
     def knobs(self):
@@ -87,7 +88,7 @@ class WorldGen:
             k["backends"][r.choice(("obj", "np", "ak"))] = True
         k["backends"]["sym"] = k["backends"]["sym"] and r.random() < 0.35
         cats = ["prop", "unary", "binary", "scalar", "operator", "ufunc", "npfunc", "akfunc", "index", "repr",
-                "copy", "convert", "construct", "mutate", "register", "badcall", "chain"]
+                "copy", "convert", "construct", "mutate", "register", "badcall", "chain", "mutres"]
         k["cats"] = {c: r.choice((0, 1, 1, 2, 4)) for c in cats}
         if self.focus == "C16":
             for c in ("binary", "convert", "operator", "ufunc", "index", "unary"):
@@ -112,10 +113,13 @@ class WorldGen:
 
     def sched_knob(self):
         r = self.rng
-        kind = r.choice(("walk", "walk", "sites", "sites", "pct", "rr", "opgran"))
+        kind = r.choice(("walk", "walk", "sites", "sites", "pct", "rr", "opgran", "parkop"))
         s = {"kind": kind, "seed": r.randrange(1 << 30)}
         if kind == "walk":
             s["p"] = r.choice((0.01, 0.03, 0.1, 0.3, 0.5))
+        elif kind == "parkop":
+            s["p"] = r.choice((0.1, 0.3, 1.0))
+            s["which"] = r.choice((["with"], ["with", "store", "flag"], ["store", "flag", "func"], ["with", "store", "flag", "func"]))
         elif kind == "sites":
             s["p"] = r.choice((0.2, 0.5, 1.0))
             s["which"] = r.choice((["with"], ["with", "store", "flag"], ["store", "flag", "func"], ["with", "store", "flag", "func"]))
@@ -389,9 +393,18 @@ class WorldGen:
         raise KeyError(kind)
 
     def transform(self, n):
+        """The transformation dict is something the caller holds: a pool slot (half the time with plain ints)."""
         r = self.rng
         ax = "xyzt"[:n]
-        return {a + b: (1.0 if a == b else 0.0) + round(r.uniform(-0.5, 0.5), 2) for a in ax for b in ax}
+        if r.random() < 0.5:
+            d = {a + b: (1 if a == b else 0) if r.random() < 0.7 else r.choice((-1, 2)) for a in ax for b in ax}
+        else:
+            d = {a + b: (1.0 if a == b else 0.0) + round(r.uniform(-0.5, 0.5), 2) for a in ax for b in ax}
+        key = ("tr", n, tuple(sorted(d.items())))
+        j = self._tr_slots.get(key)
+        if j is None:
+            j = self._tr_slots[key] = self.add({"f": "vecsim.lit", "a": [d]}, be="other", transform=n)
+        return P(j)
 
     def partner(self, self_j, kind):
         """Pick the second operand for a binary method, mostly compatible, sometimes not."""
@@ -753,6 +766,29 @@ class WorldGen:
             return None
         return {"f": "." + r.choice(("add", "subtract", "dot", "deltaphi")), "a": [R(ri), P(r.choice(c))]}
 
+    def op_mutres(self, k, t, i, st):
+        """A result that is fresh by contract becomes a private object and is then updated in place:
+        if it aliased operand storage, the operand check notices."""
+        r = self.rng
+        if not st.get("fresh_results"):
+            return None
+        ri, d = st["fresh_results"].pop(r.randrange(len(st["fresh_results"])))   # each result becomes private at most once
+        # from now on the result is a private mutable: nothing later may refer to it as "the value returned earlier"
+        st["vec_results"] = [x for x in st["vec_results"] if x[0] != ri]
+        slot = 50 + len(st.setdefault("mutres_slots", []))
+        st["mutres_slots"].append(slot)
+        first = {"f": "vecsim.lit", "a": [R(ri)], "defm": slot}
+        names = C.names_of(d["sys"]) if d.get("sys") else ["x"]
+        w = r.choice(("imul", "setcol", "iadd"))
+        if w == "imul":
+            nxt = {"f": "operator.imul", "a": [M(slot), r.choice((3.0, -2.0))], "w": [0], "bind": slot}
+        elif w == "iadd":
+            nxt = {"f": "operator.iadd", "a": [M(slot), M(slot)], "w": [0], "bind": slot}
+        else:
+            nxt = {"f": "vecsim.setitem", "a": [M(slot), r.choice(("x", "y", "rho", "phi")), 7.25], "w": [0]}
+        st["chain"] = [nxt]
+        return first
+
     def op_mutate(self, k, t, i, st):
         """Private mutable objects: definition, then assignments / in-place ops / out=."""
         r = self.rng
@@ -808,8 +844,22 @@ class WorldGen:
             nm = r.choice(C.SYN[g]) if (d.mom and g in C.SYN and r.random() < 0.6) else g
             return {"f": "vecsim.setitem", "a": [M(slot), nm, [C.value(r, g) for _ in range(3)]], "w": [0]}
         if w == "setrow":
-            c = [j for j in self.vec_slots(dim=d.dim, be=("np",)) if self.desc[j].sys == d.sys and self.desc[j].shape and self.desc[j].shape[0] >= 1
-                 and len(self.desc[j].shape) == 1]
+            same = r.random() < 0.75   # a right-hand side with other fields makes the assignment raise half-way
+            if r.random() < 0.5:
+                # a plain structured array the caller holds (momentum spellings when the target is a momentum array)
+                sys2 = d.sys if same else self.pick_sys(r.choice((2, 3, 4)))
+                nm2 = C.spell(r, sys2, True) if (d.mom and r.random() < 0.8) else C.names_of(sys2)
+                if r.random() < 0.4:
+                    order = list(range(len(nm2)))
+                    r.shuffle(order)
+                else:
+                    order = list(range(len(nm2)))
+                gen2 = C.names_of(sys2)
+                rows = [[C.value(r, gen2[q]) for q in order] for _ in range(2)]
+                raw = self.add({"f": "numpy.array", "a": [{"$": "rows", "v": rows}], "k": {"dtype": {"$": "dtlist", "v": [[nm2[q], "f8"] for q in order]}}}, be="raw")
+                return {"f": "vecsim.setitem", "a": [M(slot), {"$": "slice", "v": [0, 2, None]}, P(raw)], "w": [0]}
+            c = [j for j in self.vec_slots(be=("np",)) if (self.desc[j].sys == d.sys) == same and self.desc[j].shape and self.desc[j].shape[0] >= 1
+                 and len(self.desc[j].shape) == 1 and (self.desc[j].dim == d.dim or not same)]
             if not c:
                 return None
             return {"f": "vecsim.setitem", "a": [M(slot), {"$": "slice", "v": [0, 1, None]},
@@ -831,7 +881,7 @@ class WorldGen:
             while len(prog) < n:
                 if st["chain"]:
                     op = st["chain"].pop(0)
-                    op["cat"] = "badcall"
+                    op.setdefault("cat", "chain")
                 else:
                     op = self.gen_op(k, t, len(prog), st)
                 if "_needs_row" in op:
@@ -845,6 +895,13 @@ class WorldGen:
                     j = op["a"][0]
                     if j.get("$") == "p":
                         st["vec_results"].append((len(prog) - 1, self.desc[j["v"]].dim))
+                        dj = self.desc[j["v"]]
+                        # results that must be fresh storage: arithmetic, and conversions that change the dimension
+                        fresh = f in (".add", ".subtract", ".unit", ".scale", ".rotateZ", ".scale2D", ".scale3D", ".rotateX", ".rotateY") or \
+                            (f in (".to_Vector2D", ".to_2D") and dj.dim > 2) or (f in (".to_Vector3D", ".to_3D") and dj.dim != 3) or \
+                            (f in (".to_Vector4D", ".to_4D") and dj.dim != 4)
+                        if fresh and dj.be == "np":
+                            st.setdefault("fresh_results", []).append((len(prog) - 1, {"sys": None}))
             progs.append(prog)
         return progs
 
